@@ -129,6 +129,31 @@ def run(chk, F, tier):
               % (len(errs), errs[0] if errs else "", locs[0] if locs else ""), locs[0][4:] if locs else None,
               witness={"errors": errs[:10], "locations": locs[:10]},
               sample={"rule": "R12b", "lints": ["unwrap_used", "unwrap_in_result", "panic", "panic_in_result_fn"], "verdict": "clean"})
+    # R12e: member lookup through the supers of a class re-enters member lookup: the class must be on the guard's path first
+    chk.rule("R12e", "in semantic::infer::infer_index every function that walks LuaTypeIndex::get_super_types and feeds the supers back into "
+                     "infer_member_by_lookup calls InferGuard::check before the walk (the index's own cycle filter only sees class-to-class edges; "
+                     "a cycle closed through a generic alias comes back here)")
+    IDX = CA + "semantic::infer::infer_index::"
+    nwalk = 0
+    for k, b in F.bodies.items():
+        if not k.startswith(IDX) or b.kind != "fn":
+            continue
+        sup = [bb for bb, c in b.calls() if name(c).endswith(("LuaTypeIndex::get_super_types", "LuaTypeIndex::get_super_types_iter"))]
+        if not sup:
+            continue
+        bodies = [b] + [x for kk, x in F.bodies.items() if kk.startswith(k + "::{closure")]
+        reenters = any(name(c).endswith("infer_index::infer_member_by_lookup") for bd in bodies for _, c in bd.calls())
+        if not reenters:
+            continue
+        nwalk += 1
+        idom = cfgutil.dominators(b.succ_map(), 0)
+        checks = [bb for bb, c in b.calls() if "InferGuard" in name(c) and name(c).endswith("::check")]
+        ok = all(any(cb == sb or cfgutil.dominates(idom, cb, sb) for cb in checks) for sb in sup)
+        chk.check(ok, "R12e", "super-walk-guarded@%s" % k.replace(IDX, ""),
+                  "%s walks the super types of a class and looks members up in them without first putting the class on the inference guard: with "
+                  "`---@class A<T>: Al<T>`, `---@alias Al<T> B<T>`, `---@class B<T>: A<T>` the lookup of a missing member recurses until the stack overflows"
+                  % k.split("::")[-1], b.loc(), sample={"rule": "R12e", "fn": k.split("::")[-1], "verdict": "InferGuard::check dominates the walk"})
+    chk.floor("super walks that re-enter member lookup", nwalk, 1)
     from rules import c12d
     c12d.run_r12d(chk, F)
     from rules import c12c
